@@ -59,6 +59,15 @@ struct RBase : Profile {
     return plan;
   }
 
+  // model-free consistency: the program prints "SAME:<key>:<value>" lines; within one run all complete lines with the same key must carry the same value
+  static std::string same_lines(const std::string& out) {
+    std::map<std::string, std::string> seen; size_t b = 0;
+    while (b < out.size()) { size_t e = out.find('\n', b); if (e == std::string::npos) break; std::string l = out.substr(b, e - b); b = e + 1;
+      size_t p = l.find("SAME:"); if (p == std::string::npos) continue; size_t k = l.find(':', p + 5); if (k == std::string::npos) continue;
+      std::string key = l.substr(p + 5, k - p - 5), val = l.substr(k + 1); auto it = seen.find(key);
+      if (it == seen.end()) seen[key] = val; else if (it->second != val) return "'" + key + "' gave '" + it->second + "' and later '" + val + "'"; }
+    return "";
+  }
   // property specific extra oracle over the finished runs
   virtual void extra_checks(const json&, const ImplRun&, const RResult&, ExecResult&) {}
 
@@ -93,6 +102,7 @@ struct RBase : Profile {
     else if (!im.uniform.empty()) fail(prop() + "/container-not-uniform", im.uniform);
     else if (!im.constants.empty()) fail(prop() + "/program-text-changed-by-running", im.constants);
     else if (!im.constraint.empty()) fail(prop() + "/type-constraint-broken", im.constraint);
+    else if (!cancelled && !same_lines(im.out).empty()) fail(prop() + "/same-call-gives-another-result", same_lines(im.out));
     else if (rr.unsupported) { ++res.probes["model_unsupported"]; ++res.probes["model_unsupported: " + rr.unsupported_why.substr(0, 60)]; ev.add("unsupported:" + rr.unsupported_why); }
     else if (cancelled) { /* only invariants */ }
     else if (im.budget_exceeded) fail(prop() + "/no-progress-within-step-budget", "statement steps " + std::to_string(im.steps) + " > budget " + std::to_string(budget) + " (model took " + std::to_string(rr.steps) + ")");
